@@ -15,6 +15,17 @@ UnsubOp == [m |-> "Unsubscribe", tag |-> 0, quit |-> "nil"]
 P0(tag) == [m |-> "Publish", tag |-> tag, quit |-> "nil"]
 Later(op) == [op EXCEPT !.quit = "later"]
 
+\* Persistence contents for runs that start with an adoption (key :> record)
+Rec(kind, tag, sseq) == [kind |-> kind, tag |-> tag, sseq |-> sseq]
+NoStore == <<>>
+\* two at-least-once transfers; exactly-once: one at the PUBREL stage, three PUBLISH behind it
+StoreMix == (32768 :> Rec("PUB", 11, 1)) @@ (32769 :> Rec("PUB", 12, 2))
+            @@ (49152 :> Rec("REL", 21, 7)) @@ (49153 :> Rec("PUB", 22, 4)) @@ (49154 :> Rec("PUB", 23, 5)) @@ (49155 :> Rec("PUB", 24, 6))
+\* both sequences straddle the 14-bit wrap of the identifiers
+StoreWrap == (32768 + 16382 :> Rec("PUB", 11, 1)) @@ (32768 + 16383 :> Rec("PUB", 12, 2)) @@ (32768 :> Rec("PUB", 13, 3)) @@ (32769 :> Rec("PUB", 14, 4))
+             @@ (49152 + 16383 :> Rec("REL", 21, 8)) @@ (49152 :> Rec("PUB", 22, 6)) @@ (49153 :> Rec("PUB", 23, 7))
+\* only PUBREL records pending
+StoreRels == (49152 + 5 :> Rec("REL", 21, 3)) @@ (49152 + 6 :> Rec("REL", 22, 4))
 NoIn == <<>>
 In012 == <<[qos |-> 1, tag |-> 501], [qos |-> 2, tag |-> 502], [qos |-> 0, tag |-> 503]>>
 In22 == <<[qos |-> 2, tag |-> 501], [qos |-> 2, tag |-> 502]>>
@@ -46,11 +57,13 @@ ScriptMix == ("w1" :> <<P1(1), P2(2)>>) @@ ("w2" :> <<P2(3)>>) @@ ("c1" :> <<Clo
 ASSUME PrintT(<<"SCRIPT", ToJson(Script)>>)
 ASSUME PrintT(<<"SCRIPT2", ToJson(Script2)>>)
 ASSUME PrintT(<<"INMSGS", ToJson(InMsgs)>>)
+ASSUME PrintT(<<"INITSTORE", ToJson([k \in DOMAIN InitStore |-> InitStore[k]])>>)
+ScriptNew == ("w1" :> <<P2(101), P1(102)>>)
 Terminal == \A p \in Procs : MovesOf(st, p) = {}
 \* one behaviour per transition of the bounded model (or a seeded sample of them)
 \* (transitions after a damaged restart are rare among all transitions and are sampled twenty times as often)
 ExportStep ==
-  (hist' # hist /\ (SampleK = 1 \/ RandomElement(1..(IF st'.damaged > 0 /\ SampleK >= 20 THEN SampleK \div 20 ELSE SampleK)) = 1)) =>
+  (hist' # hist /\ (SampleK = 1 \/ RandomElement(1..(IF st'.damaged > 0 /\ st'.stops > 0 /\ SampleK >= 20 THEN SampleK \div 20 ELSE SampleK)) = 1)) =>
      PrintT(<<"CASE", ToJson([steps |-> hist'])>>)
 \* behaviours that reach a state the design forbids (used with the DEV_ switches: the specification regenerates a
 \* finding, the behaviour is replayed on the real code, the monitor decides)
